@@ -2,7 +2,7 @@
 
 use super::Prop;
 use crate::bcv;
-use crate::engine::{guard, random_genomes, Acc, Failure, Opts};
+use crate::engine::{guard, par_chunks, random_genomes, Acc, Failure, Opts};
 use crate::expr::*;
 use crate::g::G;
 use crate::gen::{gen_env, gen_expr, Cfg, Ty};
@@ -27,7 +27,7 @@ pub static PROP: Prop = Prop {
     ],
     run,
     replay,
-    both_profiles: super::thorough_both,
+    both_profiles: super::always_both,
 };
 
 fn bc_of(p: &Program) -> Vec<ByteCode> {
@@ -415,14 +415,63 @@ fn check_injected(p: &[Ins], sub: &str, acc: &mut Acc) -> Vec<Failure> {
     }
 }
 
+/// every boundary distance at every position of a short program, jump taken
+fn vm_grid(opts: &Opts, acc: &mut Acc) {
+    let mut progs: Vec<Vec<Ins>> = Vec::new();
+    for prefix in 0..4usize {
+        for suffix in 0..4usize {
+            for kind in 0..3 {
+                let jpc = prefix + if kind == 0 { 0 } else { 1 };
+                let len = jpc + 1 + suffix;
+                let next = (jpc + 1) as i64;
+                let room = (len as i64) - next;
+                let mut ds: Vec<i64> = vec![
+                    0, 1, room - 1, room, room + 1, room + 2, 1000, 1 << 20, 1 << 30,
+                    i32::MAX as i64, i32::MAX as i64 - 1, i32::MAX as i64 - next, i32::MAX as i64 - next + 1, i32::MAX as i64 - next - 1,
+                    -next - 1, -next - 2, -next - 1000, i32::MIN as i64, i32::MIN as i64 + 1, i32::MIN as i64 + next,
+                ];
+                ds.retain(|d| *d >= i32::MIN as i64 && *d <= i32::MAX as i64 && (*d >= 0 || *d < -next));
+                ds.sort();
+                ds.dedup();
+                for d in ds {
+                    let mut p: Vec<Ins> = (0..prefix).map(|i| Ins::PushI(i as i64)).collect();
+                    match kind {
+                        0 => p.push(Ins::Jmp(d as i32)),
+                        1 => {
+                            p.push(Ins::PushB(true));
+                            p.push(Ins::JmpCond(true, d as i32));
+                        }
+                        _ => {
+                            p.push(Ins::PushB(false));
+                            p.push(Ins::JmpCond(false, d as i32));
+                        }
+                    }
+                    for i in 0..suffix {
+                        p.push(Ins::PushI(10 + i as i64));
+                    }
+                    progs.push(p);
+                }
+            }
+        }
+    }
+    par_chunks(acc, opts.threads, &progs, |p, a| {
+        for f in check_injected(p, "vm-grid", a) {
+            a.fail(f);
+        }
+    });
+    acc.mark_exhaustive("vm-grid", "taken Jmp / JmpCond at positions 0..4 of programs of length 1..8 x boundary distances (end, end+1, far, around i32::MAX - pc, below 0, i32::MIN)");
+}
+
 fn run(opts: &Opts, acc: &mut Acc) {
+    vm_grid(opts, acc);
     if opts.is_dbg() {
-        random_genomes(acc, opts, "vm", 20_000, 120, |gn, a| {
+        let (nv, np) = if opts.tier == crate::engine::Tier::Quick { (6_000, 2_000) } else { (20_000, 10_000) };
+        random_genomes(acc, opts, "vm", nv, 120, |gn, a| {
             let mut g = G::new(gn);
             let p = gen_ins_seq(&mut g);
             check_injected(&p, "vm", a)
         });
-        random_genomes(acc, opts, "programs", 10_000, 400, |gn, a| check_generated(gn, a));
+        random_genomes(acc, opts, "programs", np, 400, |gn, a| check_generated(gn, a));
         return;
     }
     // fixed seeds: the repository's own test expressions with control flow
